@@ -69,6 +69,8 @@ type Exec struct {
 	files        map[string][]byte
 	ghostCalls   map[string]int
 	onceAssumed  map[string]bool
+	ghostAfter   map[string]int
+	callOrd      map[*ast.CallExpr]int
 }
 
 func NewExec(prog *Program, cs *ContractSet, unit *FuncUnit, uc *UnitContract) *Exec {
@@ -77,10 +79,24 @@ func NewExec(prog *Program, cs *ContractSet, unit *FuncUnit, uc *UnitContract) *
 		abstracted: map[string]bool{}, axioms: map[string]bool{}, loopOrd: map[ast.Stmt]int{},
 		loopModCache: map[ast.Stmt]map[string]bool{}, callCount: map[string]int{}, mathFacts: map[string]bool{},
 		trustedUsed: map[string]bool{}, varNames: map[types.Object]string{}, nameCount: map[string]int{},
-		safetyCount: map[string]int{}, ghostCalls: map[string]int{}}
+		safetyCount: map[string]int{}, ghostCalls: map[string]int{}, ghostAfter: map[string]int{}}
 	for i, l := range loopsOf(unit.Body) {
 		x.loopOrd[l] = i + 1
 	}
+	// syntactic call ordinals (per callee text, in source order) for stable obligation names and ghost anchors
+	x.callOrd = map[*ast.CallExpr]int{}
+	cnt := map[string]int{}
+	ast.Inspect(unit.Body, func(n ast.Node) bool {
+		if fl, ok := n.(*ast.FuncLit); ok && fl.Body != unit.Body {
+			return false
+		}
+		if c, ok := n.(*ast.CallExpr); ok {
+			t := types.ExprString(c.Fun)
+			cnt[t]++
+			x.callOrd[c] = cnt[t]
+		}
+		return true
+	})
 	if uc != nil {
 		x.fuc = cs.Get(uc.PkgDir, uc.Func)
 	}
@@ -128,7 +144,12 @@ func (x *Exec) assert(st *State, goal *Term, kind, name string, tags []string, p
 		ob.Pos = x.prog.pos(pos)
 	}
 	x.obligations = append(x.obligations, ob)
-	// assert-then-assume
+	// assert-then-assume for obligations later statements rely on (call preconditions, safety);
+	// postconditions, invariants and lemma goals are checked independently of each other.
+	switch kind {
+	case "post", "post-exit", "inv-step", "inv-init", "lemma", "decreases":
+		return
+	}
 	x.assume(st, goal, "proved:"+name)
 }
 
@@ -355,7 +376,11 @@ func (x *Exec) eval(e ast.Expr, st *State, sp *SpecCtx) Value {
 	case *ast.BinaryExpr:
 		return x.evalBinary(e, st, sp)
 	case *ast.CallExpr:
-		return x.evalCall(e, st, sp)
+		v := x.evalCall(e, st, sp)
+		if sp == nil {
+			x.ghostAfterCall(e, st, v)
+		}
+		return v
 	case *ast.CompositeLit:
 		return x.evalComposite(e, st, sp)
 	case *ast.FuncLit:
@@ -493,7 +518,7 @@ func ghostType(sortName string) types.Type {
 	case sortName == "bool":
 		return types.Typ[types.Bool]
 	case strings.HasPrefix(sortName, "[]"):
-		return types.NewArray(ghostType(sortName[2:]), 1<<30)
+		return types.NewArray(ghostType(sortName[2:]), 1<<40)
 	}
 	return types.Typ[types.Int]
 }
